@@ -19,7 +19,7 @@ CHECKS = {
  "C05": ("exploration", "runtime monitor: reference-model oracle (independent FFT validated by direct summation)",
          "DFT test compared with the statistic computed from an independent FFT whose bins are validated against direct summation in the same run; N1 is an interval when a magnitude is within 1e-9*sqrt(n) of the threshold. n up to 131073 quick; 2^22, smooth bin counts (s*2^k) up to 4.8 Mbit and one 10^8-bit case (2^27 points) thorough; thorough also sends a 24-Mbit sequence through a 32-bit build of the library (child process; C01-C04 do the same with 24 and 45 Mbit); re-run under a non-power-of-two CPU count.", REF, "4/C05"),
  "C06": ("exploration", "runtime monitor: exact-arithmetic oracle",
-         "Igamc compared with exact finite sums for Q(k/2,x) in 160-bit arithmetic at the property's own tolerance, plus exactly-1 for x<=0, range and monotonicity on (x, x(1+10^-u)) pairs; shapes k/2 for all k<=128 and seeded k<=10000, x dense around x=1, x=a and in both tails, for small shapes down to the smallest subnormal and around machine epsilon; plus a concurrent hammer (8 goroutines, two per shape, shapes in arithmetic families with strides 1..2048) whose results must be bit-identical to solo calls.", REF, "4/C06"),
+         "Igamc compared with exact finite sums for Q(k/2,x) in 160-bit arithmetic at the property's own tolerance, plus exactly-1 for x<=0, range and monotonicity (a runtime stack overflow inside the library is reported as a violation by ./check) on (x, x(1+10^-u)) pairs; shapes k/2 for all k<=128 and seeded k<=10000, x dense around x=1, x=a and in both tails, for small shapes down to the smallest subnormal and around machine epsilon; plus a concurrent hammer (8 goroutines, two per shape, shapes in arithmetic families with strides 1..2048) whose results must be bit-identical to solo calls.", REF, "4/C06"),
  "C12": ("exploration", "runtime monitor: exhaustive comparison with exact integer rule; reference binning",
          "Threshold checked for every s in 1..10^6 (the whole quantified range) against the exact integer inequality, sequentially and again from 16 goroutines walking the range in different orders; ThresholdQ against reference binning + exact Q(9/2,V/2) on seeded and edge-valued lists, each under 5 permutations (bit-identical); a quarter of the evaluations follow a hostile out-of-domain call in the same process.", REF, "4/C12"),
  "C19": ("exploration", "runtime monitor: closed-form and direct-summation oracles",
@@ -44,13 +44,13 @@ CHECKS.update({
  "C11": ("exploration", "runtime monitor: reference-model oracle + consumption monitor on the reader",
          "SingleDetect on every length 0..4096 x four content families, requests of 2^16..2^20 bytes dominated by one byte value, plus m-discriminating contents (found by bias scanning and by construction) around the 320-bit and 10240-bit switches; oracle = reference poker with the length-appropriate m; the recording reader checks that exactly numByte bytes are consumed, also under short reads; 70000 repeated calls in one process must keep deciding alike.", REF, "4/C11"),
  "C15": ("exploration", "runtime monitor: differential comparison of entry points (bit-identical)",
-         "On each generated byte string every byte-level entry point is compared bit for bit with the bit-level one on the harness's own MSB-first expansion, every registry runner with the standard's default, Round15/Round12 with the runners, the file loader with the expansion (also for contents that look like another format and through symbolic links); registry order is identified on inputs where all fifteen defaults differ; cases run concurrently with mixed lengths in one process.", "Trusted base: the harness's MSB-first expansion; Go float64 equality. No reference statistics involved.", "4/C15"),
+         "On each generated byte string every byte-level entry point is compared bit for bit with the bit-level one on the harness's own MSB-first expansion, every registry runner with the standard's default, Round15/Round12 with the runners, heavy-hitter inputs (one pattern 2^14..2^17 times next to all byte values) on the counting tests, the file loader with the expansion (also for contents that look like another format and through symbolic links); registry order is identified on inputs where all fifteen defaults differ; cases run concurrently with mixed lengths in one process.", "Trusted base: the harness's MSB-first expansion; Go float64 equality. No reference statistics involved.", "4/C15"),
  "C16": ("exploration", "runtime monitor: invariant predicates on every result",
          "Range/finite/P-Q-relation/Pass predicates evaluated on every result of every test and registry runner over 28 extreme families x lengths 100..10^6 bits (10^7 thorough), on inputs tuned so that each runner's P lands around 0.01, on 4400 generic inputs through all runners, and on the inputs found by a needle search for P closest to 0.01 in the (n, excursion) and (n, ones) planes; panics are violations.", "Predicates only; trusted base is the Go runtime.", "4/C16"),
  "C17": ("exploration", "runtime monitor: metamorphic relations",
          "Complement, reversal, rotation, block permutation and tail rewriting applied to generated sequences; the library's result on the transformed input must match its result on the original within 1e-8 (with the stated Q/variant swaps).", "Metamorphic: the library is compared with itself; trusted base is the transformation code in the harness.", "4/C17"),
  "C18": ("exploration", "runtime monitor: input snapshots, solo-vs-concurrent differential, Go race detector",
-         "Input (and canary-filled spare capacity) snapshots around every call, repeat-call equality, a soak of 70000 repeated calls per cheap entry point, weak-cache-key adversarial pairs (same prefix/suffix, same CRC-64/CRC-32/Adler-32, buffer re-use), one caller-owned bit buffer refilled in place between calls through every test, every cheap entry point hammered from 64 goroutines on private inputs, 2/8/64 goroutines on shared and private buffers and mixed input lengths at once (thorough: several DFT plan lengths >= 2^24 points) compared with solo results, and the same mixes in a -race build with DATA RACE reports counted.", "Trusted base: Go race detector (reports races of observed executions only).", "4/C18"),
+         "Input (and canary-filled spare capacity) snapshots around every call, repeat-call equality, a soak of 70000 repeated calls per cheap entry point, a parameter-history block (36 (test, parameter) variants alternated on different inputs; each must repeat its first result), weak-cache-key adversarial pairs (same prefix/suffix, same CRC-64/CRC-32/Adler-32, buffer re-use), one caller-owned bit buffer refilled in place between calls through every test, every cheap entry point hammered from 64 goroutines on private inputs, 2/8/64 goroutines on shared and private buffers and mixed input lengths at once (thorough: several DFT plan lengths >= 2^24 points) compared with solo results, and the same mixes in a -race build with DATA RACE reports counted.", "Trusted base: Go race detector (reports races of observed executions only).", "4/C18"),
 })
 
 TOOLS = "Trusted base: Go toolchain (build, race detector, deadlock detector), strace/taskset as perturbation, the library's own functions as the reference for report values (C01-C05 decide those), the header-label parser in the harness. The only in-package instrumentation is /verif/overlay/rddetector/zz_verif_test.go injected with go test -overlay (tag verif); /repo is never written."
